@@ -342,7 +342,10 @@ class NgramVectorizer(BaseEstimator, TransformerMixin):
 
         self._train_matrix = scipy.sparse.csr_matrix(
             (data, indices, indptr),
-            shape=(len(indptr) - 1, len(self.column_label_dictionary_)),
+            shape=(
+                len(indptr) - 1,
+                max(self.column_label_dictionary_.values(), default=-1) + 1,
+            ),
             dtype=np.float32,
         )
         self._train_matrix.sort_indices()
@@ -409,7 +412,10 @@ class NgramVectorizer(BaseEstimator, TransformerMixin):
 
         result = scipy.sparse.csr_matrix(
             (data, indices, indptr),
-            shape=(len(indptr) - 1, len(self.column_label_dictionary_)),
+            shape=(
+                len(indptr) - 1,
+                max(self.column_label_dictionary_.values(), default=-1) + 1,
+            ),
             dtype=np.float32,
         )
         result.sort_indices()
